@@ -113,12 +113,24 @@ def near_misses() -> list[tuple[str, tuple, tuple]]:
                 if p["api_key"] is not None:
                     cases.append(("load_payload_module", (p["api_key"], v, et), ("UnknownEntity",)))
                     cases.append((f"load_{t}_schema", (p["api_key"], v), ("UnknownEntity",)))
+            # aliases of VALID versions: the same low bits with a high bit set (truncating / packing lookups), and the
+            # neighbours of powers of two.  Run after the valid sweep, i.e. with every real entry already looked up once.
+            for v0 in {p["min"], p["max"]}:
+                for alias in (v0 + 2**8, v0 + 2**15, v0 + 2**16, v0 + 2 * 2**16, v0 + 3 * 2**16, v0 + 2**31, v0 + 2**32, v0 + 2**63, v0 + 2**64,
+                              v0 - 2**16, v0 - 2**32):
+                    cases.append(("load_entity_schema", (api, alias, et), ("UnknownEntity",)))
+                    if p["api_key"] is not None:
+                        cases.append(("load_payload_module", (p["api_key"], alias, et), ("UnknownEntity",)))
+                        cases.append((f"load_{t}_schema", (p["api_key"], alias), ("UnknownEntity",)))
+                        # ... and of valid KEYS: key ^ 1 is usually another valid key, so (key ^ 1, alias) probes packed keys
+                        cases.append((f"load_{t}_schema", (p["api_key"] ^ 1, alias), ("UnknownEntity", "UnknownAPIKey")))
         for et in all_types:
             if et.name not in offered:
                 v = next(iter(d.values()))["min"]
                 cases.append(("load_entity_module", (api, v, et), ("UnknownEntity",)))
                 cases.append(("load_entity_schema", (api, v, et), ("UnknownEntity",)))
     bad_keys = [keys[0] - 1, keys[-1] + 1] + [k for k in range(keys[0], keys[-1] + 1) if k not in by_key]
+    bad_keys += [k + off for k in (keys[0], 3, keys[-1]) for off in (2**8, 2**15, 2**16, 2**31, 2**32, -(2**16))]
     for k in bad_keys:
         cases.append(("load_payload_module", (k, 0, ET.request), ("UnknownAPIKey",)))
         cases.append(("load_request_schema", (k, 0), ("UnknownAPIKey",)))
